@@ -58,6 +58,7 @@ NOTES = [
 EXITING = ["busy", "prints", "swallow_finish", "swallow_raise"]
 POSITIONS = ["before_handler", "after_return", "during_next", "after_next", "free"]
 GATED = ["gate_finish", "gate_raise"]
+LATE_POSITIONS = ["after_return", "during_next", "after_next"]    # the abandoned thread finalizes after run() returned
 NEVER = ["swallow", "swallowassign", "lock"]
 ORDINARY = ["excloop", "excloopprint"]     # loops inside `except Exception`: the termination must get through
 
@@ -277,6 +278,12 @@ def _scenario_list(rng, tier):
         for _ in range(5):          # natural schedules differ from run to run
             for p in EXITING + NEVER + ["swallowprint"]:
                 scs.append({"program": p, "position": "free", "limit": rng.choice([0.2, 0.25, 0.3])})
+        # the grader empties the execution history (clear_context) before the abandoned thread gets to its finalization
+        for p in EXITING:
+            for pos in LATE_POSITIONS:
+                scs.append({"program": p, "position": pos, "limit": 0.2, "between": "clear"})
+        for p in GATED:
+            scs.append({"program": p, "position": "lose_race", "limit": 0.2, "between": "clear"})
     else:
         for p in rng.sample(EXITING, 2):
             scs.append({"program": p, "position": "free", "limit": 0.2})
@@ -285,6 +292,11 @@ def _scenario_list(rng, tier):
             scs.append({"program": p, "position": pos, "limit": 0.2, "e2": "threaded"})
         scs.append({"program": rng.choice(GATED), "position": rng.choice(["claim_first", "lose_race", "dies_at_claim"]),
                     "limit": 0.2, "e2": "threaded"})
+        # the grader empties the execution history (clear_context) before the abandoned thread gets to its finalization
+        # (while the next execution is under way is where a thread that no longer recognises its execution does harm)
+        scs.append({"program": rng.choice(EXITING), "position": "during_next", "limit": 0.2, "between": "clear"})
+        scs.append({"program": rng.choice(EXITING), "position": rng.choice(LATE_POSITIONS), "limit": 0.2, "between": "clear",
+                    "e2": "threaded"})
     return scs
 
 
@@ -295,7 +307,8 @@ def correspond(rng, tier, driver):
                 "limit) under the student thread's finalization FORCED (hooks) before the grader's handler / after "
                 "the call returned / during the next run / after it / claiming first / losing the claim race / ending between the grader's decision and "
                 "terminate(), each "
-                "followed by a next run(); model = Pedal.Timeout.run on the corresponding schedule; compared: "
+                "followed by a next run() (in some runs the grader empties the execution history, clear_context(), "
+                "before the abandoned thread is let go; context ids are then reported continued); model = Pedal.Timeout.run on the corresponding schedule; compared: "
                 "exception at return and before the next run, stack depths at return and at the end, sys.stdout "
                 "restored, runtime feedback kinds, both executions' recorded output (abstracted to who wrote it), "
                 "raw output, fresh context id, next id, thread alive; non-trivial = the finalization of the student "
